@@ -29,7 +29,9 @@
 (*   SendExecute   EXECUTE (one item) or BATCH (several items)             *)
 (*   NodeExecute   rows | UNPREPARED(first id the node does not know)      *)
 (*   Evict         evictPreparedID: Get (moves to front), remove only a    *)
-(*                 finished entry with that very id; then re-execute       *)
+(*                 finished entry with that very id; then re-execute (at   *)
+(*                 most MaxReprepare times in a row, then the UNPREPARED   *)
+(*                 error goes to the caller)                               *)
 (*   Forget        the node loses a statement                              *)
 (***************************************************************************)
 EXTENDS Integers, Sequences, FiniteSets, TLC
@@ -41,6 +43,7 @@ CONSTANTS
   MaxForget,   \* bound on Forget steps
   MaxFail,     \* bound on failing PREPAREs
   Cancellable, \* executors whose context may be cancelled
+  MaxReprepare,\* how often in a row one execution prepares again after UNPREPARED before it gives up with that error
   UniqueIds,   \* TRUE: every PREPARE answer carries a fresh id; FALSE: one id per generation
   Plans        \* set of plans: [Execs -> [conn : <<host, ks>>, items : Seq([s : stmt, n : #values])]]
 
@@ -64,7 +67,7 @@ InitState(p) ==
    fl |-> <<>>,                          \* flights in creation order
    ex |-> [e \in DOMAIN p |-> [pc |-> "lookup", idx |-> 1, cur |-> 0, got |-> <<>>, waited |-> {},
                                unprep |-> NoId, res |-> "none", nframes |-> 0, frame |-> NoFrame,
-                               started |-> FALSE]],
+                               started |-> FALSE, rep |-> 0]],
    known |-> [k \in AllKeys(p) |-> FALSE],
    gen |-> [k \in AllKeys(p) |-> 0],
    cnt |-> [k \in AllKeys(p) |-> 0],
@@ -173,7 +176,9 @@ EvictRemoves(T, e) == LET k == T.ex[e].unprep.k IN
 Evict(T, e) ==
   LET k == T.ex[e].unprep.k
       T1 == IF InLRU(T, k) THEN (IF EvictRemoves(T, e) THEN Drop(T, k) ELSE Touch(T, k)) ELSE T
-  IN [T1 EXCEPT !.ex[e].pc = "lookup", !.ex[e].idx = 1, !.ex[e].got = <<>>]
+  IN IF T.ex[e].rep >= MaxReprepare
+     THEN [T1 EXCEPT !.ex[e].pc = "done", !.ex[e].res = "err_unprepared"]   \* gives up (after the eviction)
+     ELSE [T1 EXCEPT !.ex[e].pc = "lookup", !.ex[e].idx = 1, !.ex[e].got = <<>>, !.ex[e].rep = @ + 1]
 
 ForgetEn(T, k) == k \in DOMAIN T.known /\ T.known[k] /\ T.forgets < MaxForget
 Forget(T, k) == [T EXCEPT !.known[k] = FALSE, !.forgets = @ + 1]
@@ -254,7 +259,8 @@ ArityChecked == ArityCheckedT(S)
 
 \* an error result has a cause; success means the node accepted ids it currently knows
 Justified == \A e \in EX(S) : S.ex[e].pc = "done" =>
-   /\ S.ex[e].res \in {"ok", "err_prepare", "err_arity", "err_ctx"}
+   /\ S.ex[e].res \in {"ok", "err_prepare", "err_arity", "err_ctx", "err_unprepared"}
+   /\ S.ex[e].res = "err_unprepared" => S.ex[e].rep >= MaxReprepare /\ S.ex[e].nframes > MaxReprepare
    /\ S.ex[e].res = "err_prepare" => \E f \in S.ex[e].waited : S.fl[f].st = "done_fail"
    /\ S.ex[e].res = "err_arity" => ArityWrong(S, e)
    /\ S.ex[e].res = "err_ctx" => e \in Cancellable
